@@ -669,6 +669,27 @@ func registerIntrinsics(e *Engine) {
 	r["strconv.Quote"] = func(e *Engine, fr *frame, args []Value, site ssa.CallInstruction) Value {
 		return strconv.Quote(mustStr(e, args[0], "strconv.Quote"))
 	}
+	// concrete-only helpers (harness-side text handling)
+	r["strings.Split"] = func(e *Engine, fr *frame, args []Value, site ssa.CallInstruction) Value {
+		return mkStrSlice(strings.Split(mustStr(e, args[0], "Split"), mustStr(e, args[1], "Split")))
+	}
+	r["strings.Fields"] = func(e *Engine, fr *frame, args []Value, site ssa.CallInstruction) Value {
+		return mkStrSlice(strings.Fields(mustStr(e, args[0], "Fields")))
+	}
+	for name, f := range map[string]func(a, b string) string{"strings.TrimLeft": strings.TrimLeft, "strings.TrimRight": strings.TrimRight,
+		"strings.TrimPrefix": strings.TrimPrefix, "strings.TrimSuffix": strings.TrimSuffix} {
+		f := f
+		name := name
+		r[name] = func(e *Engine, fr *frame, args []Value, site ssa.CallInstruction) Value {
+			return f(mustStr(e, args[0], name), mustStr(e, args[1], name))
+		}
+	}
+	r["strings.Index"] = func(e *Engine, fr *frame, args []Value, site ssa.CallInstruction) Value {
+		return int64(strings.Index(mustStr(e, args[0], "Index"), mustStr(e, args[1], "Index")))
+	}
+	r["strings.HasSuffix"] = func(e *Engine, fr *frame, args []Value, site ssa.CallInstruction) Value {
+		return strings.HasSuffix(mustStr(e, args[0], "HasSuffix"), mustStr(e, args[1], "HasSuffix"))
+	}
 	r["strings.Count"] = func(e *Engine, fr *frame, args []Value, site ssa.CallInstruction) Value {
 		return int64(strings.Count(mustStr(e, args[0], "Count"), mustStr(e, args[1], "Count")))
 	}
